@@ -36,6 +36,7 @@ RULE = (
 ASSUMPTIONS = [
     "grid G6, 3 x points; EW lattice sin2thetaW in {0.23126,0.5}, polarisation in {0,-0.3,1,0.7}, propagator correction in {0,0.1}; CKM in {PDG, identity, dense non-unitary, list-form}",
     "S1 'decoupled' is realised as MZ=inf (eta_gammaZ = 0.0 exactly: bit-identity demanded) and MZ=1e20 (eta ~ 1e-39: agreement within 1e-14 relative plus 1e-30 of the largest entry of the physical NC tensor)",
+    "S1-S3 are additionally crossed (PTO 1, two schemes) with TMC modes 1 and 3 and the targets iron and neutron: the symmetries must commute with target-mass corrections and the isospin rotation",
     "S4 is checked for the proton target in ZM-VFNS on rows of quarks that are active at the chosen Q2",
     "explicitly rejected runs (polarised CC) make the state trivial; other exceptions are C16's business (blocked)",
 ]
@@ -81,6 +82,13 @@ def states(tier, seed):
         # O(a_s^3) single-flavour (heavylight) kernels: the only order with a CC valence coefficient; both beam pairs
         for h, pair in itertools.product(["charm", "bottom", "total"], ["nu", "e"]):
             out.append({"rel": "S3", "kind": k, "heavyness": h, "scheme": "ZM-VFNS", "pto": 3, "Q2": 30.0, "ckm": "dense" if pair == "e" else "pdg", "pair": pair})
+    # S1-S3 crossed with options the symmetries must commute with: target-mass corrections and nuclear targets
+    for xtra, h, sc in itertools.product([{"tmc": 1}, {"target": "iron"}, {"tmc": 3, "target": "neutron"}], ["total", "charm"], ["ZM-VFNS", "FFNS3"]):
+        for k in ("F2", "F3", "g1"):
+            out.append({"rel": "S2", "kind": k, "heavyness": h, "scheme": sc, "pto": 1, "Q2": 30.0, "pol": -0.3, "process": "NC", "xtra": xtra})
+            out.append({"rel": "S1", "kind": k, "heavyness": h, "scheme": sc, "pto": 1, "Q2": 30.0, "s2w": 0.5, "pol": -0.3, "prc": 0.1, "projectile": "positron", "xtra": xtra})
+        for k, pair in itertools.product(("F2", "F3", "FL"), ("nu", "e")):
+            out.append({"rel": "S3", "kind": k, "heavyness": h, "scheme": sc, "pto": 1, "Q2": 30.0, "ckm": "dense", "pair": pair, "xtra": xtra})
     # S4
     for k, h, pto, q2, proc, pol in itertools.product(SF_KINDS, ["light", "total"], ptos if quick else [0, 1, 2, 3], [2.0, 10.0, 30.0, 1e5], ["EM", "NC"], [0.0, 0.7]):
         if quick and (pol == 0.7) != (proc == "NC"):
@@ -100,6 +108,7 @@ def _run(cell, st):
     name = cards.obsname(st["kind"], st["heavyness"])
     c = {"scheme": st["scheme"], "pto": st["pto"]}
     c.update(cell)
+    c.update(st.get("xtra", {}))  # top-level keys only (tmc, target): never collides with the relation's own obscard/theory entries
     return rel.try_run(c, {name: [cards.kin(x, st["Q2"]) for x in XS]}), name
 
 
